@@ -73,11 +73,8 @@ end Api.Rec
 
 `RecursiveConversionsVisitor.visit`: a type answered `True` gets a placeholder in the visitor's own cache while its children are compiled (a second
 visit returns the placeholder); a type answered `False` is compiled by a *fresh* visitor (`visit_not_recursive` → the method factory), whose cache is
-empty.  `compileDepth` is the depth of that recursion under a bound (`none`: the bound was exceeded — Python's `RecursionError`).  It is an abstraction from above:
-the real visitor compiles the *first* non-recursive type of a scope in place (`_first_visit`, restored at the end of each object field by
-`context_setter`), which keeps more placeholders alive; the model gives every non-recursive type a fresh visitor.  So the model may exceed the bound where
-the code returns (observed on the tree before the repair of row 96: 8 of 120 generated graphs), and the correspondence compares one direction only:
-whenever the model returns, the code returns. -/
+empty.  `compileDepth` is the depth of that recursion under a bound (`none`: the bound was exceeded — Python's `RecursionError`).  It ignores the `_first_visit` flag (`compileF` below has it, and is
+what the correspondence compares with the code). -/
 namespace Api.Rec
 
 /-- the deepest of the visits of the children, `none` as soon as one of them exceeds the bound (the later ones are not visited: the exception propagates) -/
@@ -95,10 +92,49 @@ def compileDepth (g : Graph) (memo : Cache) : Nat → List Node → Node → Opt
       else (deepest (compileDepth g memo fuel (n :: vc)) (children g n)).map (· + 1)
     else (deepest (compileDepth g memo fuel []) (children g n)).map (· + 1)   -- a fresh visitor
 
+/-! ### the same with the `_first_visit` flag
+
+The flag is an attribute of the visitor: the first non-recursive type met while it is set is compiled in place (with the visitor's current cache) and clears it;
+`visit_with_conv` - every field of an object - restores the attributes of the visitor when it returns (`context_setter`), the flag included, while the elements of
+collections, mappings and unions are visited one after the other on the same attributes.  `objs`: the nodes whose children are visited that way. -/
+
+def visitKids (f : Bool → Node → Option (Nat × Bool)) (restore : Bool) : Bool → List Node → Option (Nat × Bool)
+  | first, [] => some (0, first)
+  | first, x :: xs =>
+    match f first x with
+    | none => none
+    | some (d, first') => (visitKids f restore (if restore then first else first') xs).map (fun r => (Nat.max d r.1, r.2))
+
+def compileF (g : Graph) (objs : List Node) (memo : Cache) : Nat → List Node → Bool → Node → Option (Nat × Bool)
+  | 0, _, _, _ => none
+  | fuel + 1, vc, first, n =>
+    if memo.get? n == some true then
+      if vc.contains n then some (0, first)
+      else (visitKids (compileF g objs memo fuel (n :: vc)) (objs.contains n) first (children g n)).map (fun r => (r.1 + 1, r.2))
+    else if first then                                              -- in place, the flag cleared
+      (visitKids (compileF g objs memo fuel vc) (objs.contains n) false (children g n)).map (fun r => (r.1 + 1, r.2))
+    else                                                            -- a fresh visitor (its own cache and flag); the caller's flag is untouched
+      (visitKids (compileF g objs memo fuel []) (objs.contains n) false (children g n)).map (fun r => (r.1 + 2, first))
+
 /-- row 96 in the model: with the memo left by the former exit (`Q` answered `False` on a cycle) compiling `HP` exceeds any reasonable bound
     (here 60 nested visits for five classes), with the repaired memo the recursion is four deep (evaluations on the example graph) -/
 theorem wrong_false_overflows :
     compileDepth g1 (history stepEarly g1 200 [0]) 60 [] 0 = none ∧ compileDepth g1 (history step g1 200 [0]) 60 [] 0 = some 4 := by
+  decide +kernel
+
+/-- the type graph of the five classes of row 96 as the checker keys it: `HP` = 0, `int` = 1, `Optional[H]` = 2, `H` = 3, `Optional[X]` = 4, `X` = 5,
+    `Optional[Y]` = 6, `Y` = 7, `Optional[HP]` = 8, `NoneType` = 9, `Optional[Q]` = 10, `Q` = 11 (every class has a field `v: int` first) -/
+def g1t : Graph := [(0, [1, 2, 10]), (1, []), (2, [3, 9]), (3, [1, 4]), (4, [5, 9]), (5, [1, 2, 6]), (6, [7, 9]), (7, [1, 8]), (8, [0, 9]), (9, []),
+                    (10, [11, 9]), (11, [1, 4])]
+def g1tObjects : List Node := [0, 3, 5, 7, 11]
+
+/-- the replay with the flag on the real type graph: the former exit answers `False` for `Optional[Q]` and `Q`, which lie on a cycle, and compiling `HP`
+    exceeds the bound; with the repaired exit every answer is exact and the compilation returns (evaluations on the example) -/
+theorem wrong_false_overflows_flag :
+    (history stepEarly g1t 500 [0]).get? 11 = some false ∧ onCycleB g1t 11 = true ∧
+    compileF g1t g1tObjects (history stepEarly g1t 500 [0]) 46 [] true 0 = none ∧
+    exact g1t (history step g1t 500 [0]) = true ∧
+    (compileF g1t g1tObjects (history step g1t 500 [0]) 46 [] true 0).isSome = true := by
   decide +kernel
 
 end Api.Rec
